@@ -47,3 +47,4 @@ CLAIM = dict(
 )
 
 CLAIM["text"] += ' A class of range edges was added: date-times plus or minus durations of every magnitude, calendar arithmetic, three-argument assertions with tolerances from 5e-324 to 1e308 (their failure message formats the tolerance), and definitions whose parameters or where-variables are named like units.'
+CLAIM["text"] += " Deeply nested inputs (parentheses, if-else chains, long sums, unary minus, list brackets; 50-100 levels, which must work, and 5000-100000 levels) are handed to the `numbat` binary built from the current tree in a child process, because a stack overflow kills the process and cannot be observed in-process."
